@@ -101,7 +101,8 @@ var numericCharRefsTerminatedPattern = regexp.MustCompile(
 //   - ends in an incomplete HTML character reference before HTML-unescaping,
 //   - ends in an incomplete percent-encoding character triplet after HTML-unescaping,
 //   - contains whitespace before or after HTML-unescaping, or
-//   - contains a numeric HTML character reference that is not terminated by a semicolon.
+//   - contains a numeric HTML character reference that is not written out in full
+//     ("&#", 1-7 digits or "x" and 1-6 hexadecimal digits, and a semicolon).
 func decodeURLPrefix(prefix string) (string, error) {
 	if containsWhitespaceOrControlPattern.MatchString(prefix) {
 		return "", fmt.Errorf("URL prefix %q contains whitespace or control characters", prefix)
@@ -119,7 +120,7 @@ func decodeURLPrefix(prefix string) (string, error) {
 		return "", fmt.Errorf("URL prefix %q ends with an incomplete percent-encoding character triplet", prefix)
 	}
 	if !numericCharRefsTerminatedPattern.MatchString(prefix) {
-		return "", fmt.Errorf("URL prefix %q contains a numeric HTML character reference that is not terminated by a semicolon", prefix)
+		return "", fmt.Errorf("URL prefix %q contains a numeric HTML character reference that is not written out in full (digits and a semicolon)", prefix)
 	}
 	return decoded, nil
 }
